@@ -21,7 +21,7 @@ import numpy as np
 from . import core
 from .core import Case, cD, cZ, cN, clist, cbool
 from .c09 import (_cloud, _lattice, _distinct_values, _fix_weights, _cd, _cdl, _cdll, _fmt, _same, LAYOUTS,
-                  apply_layout, first_call_args, cast_variant)
+                  apply_layout, first_call_args, cast_variant, params_snapshot)
 
 ID = "C10"
 PROPS_FILE = "Props/C10.v"
@@ -38,7 +38,10 @@ RULE = ("BlockMean.filter: clouds of 1..60 points (uniform / clustered / 2-D gri
         "memory layouts. About 30 % of the BlockMean cases (and fixed edge cases) hold integer values in int64 / int32 / float32 "
         "arrays (data, weights, coordinates; float32 compared within 2^-20), 2-D inputs come in mixed memory layouts (C, Fortran, "
         "transposed, strided, negative strides; a different one per array) and a quarter of the cases are observed on an instance "
-        "that has already filtered other data (result must be bitwise that of a fresh instance). A BlockMean case is non-trivial when it returns with >= 2 blocks of different "
+        "that has already filtered other data (result must be bitwise that of a fresh instance). The other data is another survey: a cloud with a different point count and a clearly different bounding box "
+        "(shifted far away / three times larger / four times smaller), and 70 % of these instances (plus fixed edge cases with "
+        "spacing, shape and adjust=region) have region=None so that each call must infer its own region. For every case "
+        "get_params() of the instance is compared before and after filter(): a written constructor parameter makes holds false. A BlockMean case is non-trivial when it returns with >= 2 blocks of different "
         "population; a variance_to_weights case when some variance is above and some at or below the tolerance or NaN.")
 ASSUMPTIONS = [
     "pandas groupby / numpy.unique as for C09 (executable specifications groupby / ukeys, re-validated on every run); labels and block centres observed from verde.block_split",
@@ -84,8 +87,10 @@ def observe_bm(vd, coords, data, weights, kw, tuple1, twice=False):
     arrays = list(coords) + list(data) + (list(weights) if weights is not None else [])
     before = [a.tobytes() for a in arrays]
     stale = False
+    params_ok = True
     try:
         bm = vd.BlockMean(**kw)
+        params = params_snapshot(bm)
         d = tuple(data) if len(data) != 1 or tuple1 else data[0]
         w = None if weights is None else (tuple(weights) if len(weights) != 1 else weights[0])
         if twice:
@@ -94,7 +99,11 @@ def observe_bm(vd, coords, data, weights, kw, tuple1, twice=False):
                 bm.filter(*first_call_args(coords, data, weights, True))
             except Exception:
                 pass
-        oc, om, ow = bm.filter(tuple(coords), d, w)
+            params_ok = params_snapshot(bm) == params
+        try:
+            oc, om, ow = bm.filter(tuple(coords), d, w)
+        finally:
+            params_ok = params_ok and params_snapshot(bm) == params
         if twice:
             fresh = vd.BlockMean(**kw).filter(tuple(coords), d, w)
             stale = not _same((tuple(oc), om, ow), (tuple(fresh[0]), fresh[1], fresh[2]))
@@ -103,9 +112,10 @@ def observe_bm(vd, coords, data, weights, kw, tuple1, twice=False):
         res = ("ValueError",)
     except Exception as exc:
         res = ("other", type(exc).__name__ + ": " + str(exc)[:100])
-    unchanged = all(a.tobytes() == b for a, b in zip(arrays, before))
+    # the caller's arrays and the instance's constructor parameters are what they were
+    unchanged = all(a.tobytes() == b for a, b in zip(arrays, before)) and params_ok
     if res is not None:
-        return res, unchanged
+        return res, unchanged, params_ok
     om = list(om) if isinstance(om, tuple) else [om]
     ow = list(ow) if isinstance(ow, tuple) else [ow]
     oc = list(oc)
@@ -114,7 +124,7 @@ def observe_bm(vd, coords, data, weights, kw, tuple1, twice=False):
         if np.asarray(a).ndim != 1:
             extra = [np.zeros(1)]
     f = lambda l: [np.asarray(a, dtype=float).ravel() for a in l] + extra
-    return ("ok", f(oc), f(om), f(ow)), unchanged
+    return ("ok", f(oc), f(om), f(ow)), unchanged, params_ok
 
 
 def make_bm_case(vd, coords, data, weights, kw, kind, expect_valid=True):
@@ -130,7 +140,7 @@ def make_bm_case(vd, coords, data, weights, kw, kind, expect_valid=True):
     if kw.get("_readonly"):
         for a in list(coords) + list(data) + (list(weights) if weights is not None else []):
             a.flags.writeable = False
-    obs, unchanged = observe_bm(vd, coords, data, weights, kwc, bool(kw.get("_tuple1")), bool(kw.get("_twice")))
+    obs, unchanged, params_ok = observe_bm(vd, coords, data, weights, kwc, bool(kw.get("_tuple1")), bool(kw.get("_twice")))
     tags = list(kw.get("_layouts") or []) + ["C"] * 16
     tc, td, tw = tags[:len(coords)], tags[len(coords):len(coords) + len(data)], tags[len(coords) + len(data):]
     cw = "None" if weights is None else "(Some %s)" % _cdll(weights)
@@ -153,7 +163,14 @@ def make_bm_case(vd, coords, data, weights, kw, kind, expect_valid=True):
         kwc, ", ".join(_fmt(c, t) for c, t in zip(coords, tc)), ", ".join(_fmt(d, t) for d, t in zip(data, td)),
         "None" if weights is None else "(%s,)" % ", ".join(_fmt(w, t) for w, t in zip(weights, tw))))
     if kw.get("_twice"):
-        repro += "  # observed on an instance that had filtered other data before (result must equal this fresh call)"
+        repro = ("import numpy as np, verde; from harness.c09 import first_call_args; c = (%s,); d = (%s,); w = %s; "
+                 "bm = verde.BlockMean(**%r); p = bm.get_params(); "
+                 "exec('try: bm.filter(*first_call_args(c, d, w, True))\\nexcept Exception as e: print(e)'); "
+                 "print(bm.filter(c, d if len(d) > 1 else d[0], w if w is None or len(w) > 1 else w[0])); "
+                 "print('fresh:', verde.BlockMean(**%r).filter(c, d if len(d) > 1 else d[0], w if w is None or len(w) > 1 else w[0])); "
+                 "print('get_params unchanged:', bm.get_params() == p)" % (
+                     ", ".join(_fmt(c, t) for c, t in zip(coords, tc)), ", ".join(_fmt(d, t) for d, t in zip(data, td)),
+                     "None" if weights is None else "(%s,)" % ", ".join(_fmt(w, t) for w, t in zip(weights, tw)), kwc, kwc))
     inp = {"function": "BlockMean.filter", "kwargs": kwc, "coordinates": [np.asarray(c).tolist() for c in coords],
            "data": [np.asarray(d).tolist() for d in data],
            "weights": None if weights is None else [np.asarray(w).tolist() for w in weights],
@@ -161,7 +178,7 @@ def make_bm_case(vd, coords, data, weights, kw, kind, expect_valid=True):
            "ddof_probed": probe_ddof(vd),
            "dtypes": [str(np.asarray(a).dtype) for a in list(coords) + list(data) + (list(weights) if weights is not None else [])],
            "layouts": kw.get("_layouts"), "instance_reused": bool(kw.get("_twice"))}
-    out = [obs[0]] + ([[a.tolist() for a in o] for o in obs[1:]] if obs[0] == "ok" else list(obs[1:])) + [{"inputs_unchanged": unchanged}]
+    out = [obs[0]] + ([[a.tolist() for a in o] for o in obs[1:]] if obs[0] == "ok" else list(obs[1:])) + [{"inputs_and_params_unchanged": unchanged, "get_params_unchanged": params_ok}]
     return Case(inp, out, term, repro, kind, nontrivial=nontrivial)
 
 
@@ -212,7 +229,10 @@ def random_bm_config(rnd, vd, i, mode):
         kw["shape"] = (rnd.randint(1, 6), rnd.randint(1, 6))
     e0, n0 = np.ravel(coords[0]), np.ravel(coords[1])
     degenerate = n == 1 or len(set(e0.tolist())) == 1 or len(set(n0.tolist())) == 1
-    if rnd.random() < 0.5 or degenerate:
+    # a quarter of the cases run on an instance that has filtered another survey before; most of those leave
+    # the region to be inferred from each call's own points
+    twice = rnd.random() < 0.25
+    if (rnd.random() < 0.5 and not (twice and rnd.random() < 0.7)) or degenerate:
         if rnd.random() < 0.3:
             kw["region"] = (box[0] - 2, box[1] + 3, box[2] - 1, box[3] + 2)
         else:
@@ -252,7 +272,7 @@ def random_bm_config(rnd, vd, i, mode):
         kw["_tuple1"] = True
     if rnd.random() < 0.35:
         kw["_readonly"] = True
-    if rnd.random() < 0.25:
+    if twice:
         kw["_twice"] = True
     return coords, data, weights, kw
 
@@ -312,6 +332,18 @@ def bm_edge_cases(vd):
             arrs = [apply_layout(a, t) for a, t in zip(arrs, tags + ["F"])]
             out.append((arrs[:3], arrs[3:5], None if unc is None else arrs[5:7], kw,
                         "bm-edge-%s-%s" % ("unweighted" if unc is None else ("uncertainty" if unc else "wvariance"), name)))
+    # one object, two surveys: the instance first filters a cloud with another bounding box (shifted / larger /
+    # smaller, by point count) and point count; region=None, so each call must infer its own region
+    for npts in (12, 13, 14):
+        e3 = (np.arange(npts) * 11 % npts) * 0.5 + 1.0; n3 = (np.arange(npts) * 5 % npts) * 0.25 - 2.0
+        d3 = np.arange(npts) * 1.5 - 4.0; w3 = (np.arange(npts) % 5 + 1) * 0.5; u3 = np.arange(npts)[::-1] * 2.0 + 7.0
+        for blk in (dict(spacing=1.5), dict(shape=(3, 2)), dict(spacing=(1, 2), adjust="region")):
+            for center in (False, True):
+                kw = dict(blk, center_coordinates=center, drop_coords=not center, _twice=True)
+                c3 = lambda: [e3.copy(), n3.copy(), u3.copy()]
+                out.append((c3(), [d3.copy(), d3 * d3], None, dict(kw), "bm-edge-reused"))
+                out.append((c3(), [d3.copy(), -d3], [w3.copy(), w3[::-1].copy()], dict(kw), "bm-edge-reused"))
+                out.append((c3(), [d3.copy(), -d3], [w3.copy(), w3[::-1].copy()], dict(kw, uncertainty=True), "bm-edge-reused"))
     return out
 
 
